@@ -324,7 +324,38 @@ def rule_gr5(prog):
             r.ok()
         pos_ok = len(args) == 2 and args[0] == s and \
             'pos_in_stream' in repr(args[1])
-        if pos_ok:
+        # .pos is an index into the input: lark's position itself
+        # (optionally through int()), not a value computed from it
+        pt = args[1] if len(args) == 2 else None
+        if isinstance(pt, App) and pt.op == 'int' and len(pt.args) == 1:
+            pt = pt.args[0]
+        ident = isinstance(pt, App) and pt.op == 'attr' and \
+            isinstance(pt.args[0], Sym) and \
+            pt.args[1] == Const('pos_in_stream')
+        if pos_ok and not ident:
+            from ..values import walk as _walk
+            resized = [x for x in _walk(args[1]) if isinstance(x, App) and
+                       x.op in ('mcall', 'call') and any(
+                           isinstance(a, Const) and a.v in (
+                               'expandtabs', 'encode', 'strip', 'lstrip',
+                               'replace', 'split') for a in x.args)]
+            if resized:
+                r.fail(Finding(
+                    PROP, 'R-GR-5', I.where(v.node, f.module), f.short(),
+                    'position-computed:%s' % caught,
+                    'the position reported for %s is %s: measured on a '
+                    'transformed copy of the input (%s), so it is not an '
+                    'index into the string that was given (e.g. a TAB '
+                    'before the offending character: "\\t$" has its error '
+                    'at index 1)' % (caught, repr(args[1])[:120],
+                                     repr(resized[0])[:80])), witness=v)
+            else:
+                raise Inconclusive(
+                    'R-GR-5', 'the position reported for %s is computed '
+                    'from lark\'s position (%s); not decided' % (
+                        caught, repr(args[1])[:100]),
+                    I.where(v.node, f.module))
+        elif pos_ok:
             r.ok()
         else:
             r.fail(Finding(
